@@ -383,20 +383,55 @@ func (c *ctx) prologue() {
 	// printExpr records before naming
 	if fc, fd := c.findFunc(c.inter.PkgPath, "exprPrinter", "printExpr"); fd != nil {
 		info := fc.pkg.TypesInfo
-		var rec ast.Node
-		astx.Writes(fd.Body, func(l ast.Expr, at ast.Node) {
-			if ix, ok := astx.Unparen(l).(*ast.IndexExpr); ok && isMapType(info.TypeOf(ix.X)) && fc.par[at] == ast.Node(fd.Body) {
-				rec = at
+		// recordsThenNames: in function d, a write into a map (the set of recorded expressions) at the top level of
+		// the body precedes the top-level return of a hoisted name
+		recordsThenNames := func(dfc *fileCtx, d *ast.FuncDecl) bool {
+			var rec ast.Node
+			astx.Writes(d.Body, func(l ast.Expr, at ast.Node) {
+				if ix, ok := astx.Unparen(l).(*ast.IndexExpr); ok && isMapType(info.TypeOf(ix.X)) && dfc.par[at] == ast.Node(d.Body) {
+					rec = at
+				}
+			})
+			good := false
+			ast.Inspect(d.Body, func(n ast.Node) bool {
+				ret, ok := n.(*ast.ReturnStmt)
+				if ok && len(ret.Results) == 1 && c.isHoistedName(dfc, ret.Results[0]) {
+					good = rec != nil && rec.Pos() < ret.Pos() && dfc.par[ret] == ast.Node(d.Body)
+				}
+				return true
+			})
+			return good
+		}
+		// a return that hands out a hoisted name: directly, or through a package-local helper that does
+		namesHoisted := func(e ast.Expr) (isName bool, recorded bool) {
+			if call, ok := astx.Unparen(e).(*ast.CallExpr); ok {
+				if fn := astx.Callee(info, call); fn != nil && fn.Pkg() == c.inter.Types {
+					for _, f2 := range c.files {
+						if d := astx.DeclOfFunc(info, []*ast.File{f2.file}, fn); d != nil && d.Body != nil {
+							named := false
+							ast.Inspect(d.Body, func(n ast.Node) bool {
+								if ret, ok := n.(*ast.ReturnStmt); ok && len(ret.Results) == 1 && c.isHoistedName(f2, ret.Results[0]) {
+									named = true
+								}
+								return true
+							})
+							if named {
+								return true, recordsThenNames(f2, d)
+							}
+						}
+					}
+				}
 			}
-		})
+			return c.isHoistedName(fc, e), false
+		}
 		good := false
 		ast.Inspect(fd.Body, func(n ast.Node) bool {
 			ret, ok := n.(*ast.ReturnStmt)
 			if !ok || len(ret.Results) != 1 {
 				return true
 			}
-			if c.isHoistedName(fc, ret.Results[0]) {
-				good = rec != nil && rec.Pos() < ret.Pos() && fc.par[ret] == ast.Node(fd.Body)
+			if isName, rec := namesHoisted(ret.Results[0]); isName {
+				good = rec || recordsThenNames(fc, fd)
 			}
 			return true
 		})
@@ -407,10 +442,10 @@ func (c *ctx) prologue() {
 			if !ok || len(ret.Results) != 1 {
 				return true
 			}
-			if c.isHoistedName(fc, ret.Results[0]) {
+			if isName, _ := namesHoisted(ret.Results[0]); isName {
 				return true
 			}
-			conds := fc.par.Known(ret, fd)
+			conds := c.expandPredicates(fc, fc.par.Known(ret, fd))
 			why := ""
 			for _, cd := range conds {
 				// ident.Name == "nil"
@@ -619,4 +654,39 @@ func (c *ctx) inversion() {
 	for name := range want {
 		c.s.Check(seen[name], "G14", "invertCffConstraint|handles *constraint."+name, c.pos(ts), "", "constraint node kind "+name+" has no case: cff tags under it are left as they are")
 	}
+}
+
+// expandPredicates replaces a condition that is a call of a package-local predicate function with a single
+// `return <expr>` by the conditions <expr> stands for (`isNilIdent(e)` -> `ok && ident.Name == "nil"`).
+func (c *ctx) expandPredicates(fc *fileCtx, conds []astx.Cond) []astx.Cond {
+	info := fc.pkg.TypesInfo
+	var out []astx.Cond
+	for _, cd := range conds {
+		out = append(out, cd)
+		call, ok := astx.Unparen(cd.E).(*ast.CallExpr)
+		if !ok {
+			continue
+		}
+		fn := astx.Callee(info, call)
+		if fn == nil || fn.Pkg() != c.inter.Types {
+			continue
+		}
+		for _, f2 := range c.files {
+			d := astx.DeclOfFunc(info, []*ast.File{f2.file}, fn)
+			if d == nil || d.Body == nil {
+				continue
+			}
+			var rets []*ast.ReturnStmt
+			ast.Inspect(d.Body, func(n ast.Node) bool {
+				if r, ok := n.(*ast.ReturnStmt); ok {
+					rets = append(rets, r)
+				}
+				return true
+			})
+			if len(rets) == 1 && len(rets[0].Results) == 1 {
+				astx.Split(rets[0].Results[0], cd.Pos, cd.At, &out)
+			}
+		}
+	}
+	return out
 }
